@@ -1469,7 +1469,12 @@ func (fe *FnExec) convert(st *State, x *ssa.Convert) SVal {
 			// the conversion is only defined (and obliged) inside the target range.
 			tr := Ite(Ge(s, Term{"0.0", SReal}), App(SInt, "to_int", s), Neg(App(SInt, "to_int", Neg(s))))
 			tr = st.define("trunc", tr)
-			fe.safety(st, rangeFactOrTrue(tr, x.Type()), x, "float-to-int-range")
+			// out of range the result is implementation-defined (no panic): unconstrained
+			if inRange := rangeFactOrTrue(tr, x.Type()); inRange.S != "true" {
+				any := st.freshConst("fconv", SInt)
+				st.assume(rangeFact(any, x.Type()), "")
+				return Scalar{st.define("conv", Ite(inRange, tr, any))}
+			}
 			return Scalar{tr}
 		case fb.Kind() == types.Float64 && tb.Kind() == types.Float64:
 			return v
